@@ -145,6 +145,9 @@ func VerifC08Token(h *verifh.H) {
 		if killAt == -2 {
 			cancel()
 		}
+		if h.Param("commitPoints", 0) == 1 {
+			h.CrashAtCommits()
+		}
 		h.CrashWindowStart()
 		_, _ = pl.sync(j, ctx)
 		cancel()
